@@ -2335,25 +2335,25 @@ Section Prod.
   Variable rules : list pexpr.
   Variable rk : N -> nat.          (* the rank of a Memoize index *)
 
-  (* [prod n e]: e has a way to a node or an error that enters only Memoize wrappers of rank
+  (* [prodn n e]: e has a way to a node or an error that enters only Memoize wrappers of rank
      < n (so none of them twice).  With [ranked] this is "every rule is productive", the rank
      of a rule being the stage at which the least fixpoint finds it productive. *)
-  Fixpoint prod (n : nat) (e : pexpr) : bool :=
+  Fixpoint prodn (n : nat) (e : pexpr) : bool :=
     match e with
     | PTerm _ | PEmpty | PEnd => true
     | PRef k => match nth_N rules k with Some (PMemo idx _) => Nat.ltb (rk idx) n | _ => false end
     | PMemo idx _ => Nat.ltb (rk idx) n
-    | PAny ps | PChoice ps => existsb (prod n) ps
+    | PAny ps | PChoice ps => existsb (prodn n) ps
     | POpt _ | PName _ _ => true
-    | PSeq k _ _ _ ps => kind_ok k (length ps) && forallb (prod n) ps
-    | PSingle p => prod n p
+    | PSeq k _ _ _ ps => kind_ok k (length ps) && forallb (prodn n) ps
+    | PSingle p => prodn n p
     | PSuppress _ | PLeftTrim _ _ | PRightTrim _ _ => false
     end.
   (* every Memoize body is productive strictly below the rank of its wrapper *)
   Fixpoint ranked (e : pexpr) : bool :=
     match e with
     | PTerm _ | PEmpty | PEnd | PRef _ => true
-    | PMemo idx p => prod (rk idx) p && ranked p
+    | PMemo idx p => prodn (rk idx) p && ranked p
     | POpt p | PName _ p | PSuppress p | PSingle p => ranked p
     | PAny ps | PChoice ps | PSeq _ _ _ _ ps => forallb ranked ps
     | PLeftTrim _ _ | PRightTrim _ _ => false
@@ -2389,7 +2389,7 @@ Section Prod.
   Definition pp (rp : ptype) : Prop :=
     forall e c stk lrc pos res cp err c',
       ranked e = true -> CI c -> rp e c stk lrc pos = Ok (res, cp, err, c') ->
-      CI c' /\ forall n, prod n e = true -> res <> [] \/ err <> None \/ blocked n cp lrc pos.
+      CI c' /\ forall n, prodn n e = true -> res <> [] \/ err <> None \/ blocked n cp lrc pos.
   (* the sequence either still runs in the context it was started in (nothing consumed, the
      curtailing parsers are merged) or has consumed input (empty left-recursion context) *)
   Definition smode (m : bool) (lrc lrc0 : intmap) (pos pos0 : N) : Prop :=
@@ -2399,7 +2399,7 @@ Section Prod.
       forallb ranked (q_ps q) = true -> CI c -> dbound q d -> smode m lrc lrc0 pos pos0 ->
       rs q d c stk lrc pos m st = Ok (stop, st', c') ->
       CI c' /\ (live st -> live st') /\ (forall i, set_mem i (s_cp st) = true -> set_mem i (s_cp st') = true) /\
-      forall n, kind_ok (q_kind q) (length (q_ps q)) = true -> forallb (prod n) (q_ps q) = true ->
+      forall n, kind_ok (q_kind q) (length (q_ps q)) = true -> forallb (prodn n) (q_ps q) = true ->
                 live st' \/ blocked n (s_cp st') lrc0 pos0.
 
   Section Step.
@@ -2411,7 +2411,7 @@ Section Prod.
     Lemma any_loop_prod stk lrc pos ps : forall c cp res err nf res' cp' err' c',
       forallb ranked ps = true -> CI c ->
       any_loop rp stk lrc pos ps c cp res err nf = Ok (res', cp', err', c') ->
-      CI c' /\ forall n, res <> [] \/ some2 err nf \/ blocked n cp lrc pos \/ existsb (prod n) ps = true ->
+      CI c' /\ forall n, res <> [] \/ some2 err nf \/ blocked n cp lrc pos \/ existsb (prodn n) ps = true ->
                          res' <> [] \/ err' <> None \/ blocked n cp' lrc pos.
     Proof.
       induction ps as [|p ps IH]; intros c cp res err nf res' cp' err' c' Hr Hci H; cbn [any_loop] in H.
@@ -2439,7 +2439,7 @@ Section Prod.
     Lemma choice_loop_prod stk lrc pos ps : forall c cp err nf res' cp' err' c',
       forallb ranked ps = true -> CI c ->
       choice_loop rp stk lrc pos ps c cp err nf = Ok (res', cp', err', c') ->
-      CI c' /\ forall n, some2 err nf \/ blocked n cp lrc pos \/ existsb (prod n) ps = true ->
+      CI c' /\ forall n, some2 err nf \/ blocked n cp lrc pos \/ existsb (prodn n) ps = true ->
                          res' <> [] \/ err' <> None \/ blocked n cp' lrc pos.
     Proof.
       induction ps as [|p ps IH]; intros c cp err nf res' cp' err' c' Hr Hci H; cbn [choice_loop] in H.
@@ -2476,11 +2476,11 @@ Section Prod.
         + split; [eapply CI_cache; [|exact Hci]; reflexivity|]. intros n _. right; left; discriminate.
       - (* PRef *) destruct (nth_N rules k) as [body|] eqn:E; [|discriminate].
         destruct (Hp body c stk lrc pos res cp err c' (Hrules k body E) Hci H) as [Hci' Hn]. split; [exact Hci'|].
-        intros n Hpn. cbn [prod] in Hpn. rewrite E in Hpn.
+        intros n Hpn. cbn [prodn] in Hpn. rewrite E in Hpn.
         destruct body as [| | | |idx0 body0| | | | | | | | |]; try discriminate. apply Hn. exact Hpn.
       - (* PMemo *) apply andb_true_iff in Hr. destruct Hr as [Hpe Hre].
         destruct (cache_get c idx pos lrc) as [r|] eqn:E.
-        + inversion H; subst. split; [exact Hci|]. intros n Hpn. cbn [prod] in Hpn. apply Nat.ltb_lt in Hpn.
+        + inversion H; subst. split; [exact Hci|]. intros n Hpn. cbn [prodn] in Hpn. apply Nat.ltb_lt in Hpn.
           destruct (Hci idx pos r (cache_get_in _ _ _ _ _ E)) as [[G|G]|[i [G1 [G2 G3]]]]; [left; exact G|right; left; exact G|].
           right. right. exists i. split; [exact G1|]. split; [lia|].
           unfold cache_get in E. destruct (cache_find (idx, pos) (cache c')) as [r0|]; [|discriminate].
@@ -2489,7 +2489,7 @@ Section Prod.
           assert (Hin : In (i, map_get i (r_lrc r)) (r_lrc r)) by (apply map_get_in; lia).
           specialize (Er _ Hin). cbn [fst snd] in Er. apply N.leb_le in Er. lia.
         + destruct (remaining inp pos + 1 <? map_get idx lrc) eqn:Ecut.
-          * inversion H; subst. split; [exact Hci|]. intros n Hpn. cbn [prod] in Hpn. apply Nat.ltb_lt in Hpn.
+          * inversion H; subst. split; [exact Hci|]. intros n Hpn. cbn [prodn] in Hpn. apply Nat.ltb_lt in Hpn.
             apply N.ltb_lt in Ecut. right. right. exists idx. split; [cbn [set_mem]; rewrite N.eqb_refl; reflexivity|].
             split; [exact Hpn|exact Ecut].
           * apply bind_ok in H. destruct H as [[[[nodes cp0] err0] c0] [H1 H2]]. inversion H2; subst.
@@ -2505,7 +2505,7 @@ Section Prod.
                inversion Ein; subst. cbn [r_cp r_lrc]. unfold r_live. cbn [r_nodes r_err].
                destruct Hb as [G|[G|[i [G1 [G2 G3]]]]]; [left; left; exact G|left; right; exact G|].
                right. exists i. split; [exact G1|]. split; [exact G2|]. rewrite map_get_filter by exact G1. exact G3.
-            -- intros n Hpn. cbn [prod] in Hpn. apply Nat.ltb_lt in Hpn.
+            -- intros n Hpn. cbn [prodn] in Hpn. apply Nat.ltb_lt in Hpn.
                destruct Hb as [G|[G|G]]; [left; exact G|right; left; exact G|].
                right. right. apply (blocked_rank (rk idx)); [lia|exact G].
       - (* PAny *)
@@ -2524,7 +2524,7 @@ Section Prod.
                      {| s_cp := []; s_res := []; s_err := None; s_nodes := [] |} stop st c0 pos lrc Hr Hci) as [Hci0 [_ [_ Hn0]]];
           [unfold dbound; cbn [q_kind q_ps]; destruct k; try exact I; lia|left; split; [reflexivity|split; [reflexivity|lia]]|exact H1|].
         assert (Hci' : CI c') by (destruct (s_res st); inversion H2; subst; [exact Hci0|eapply CI_cache; [|exact Hci0]; reflexivity]).
-        split; [exact Hci'|]. intros n Hpn. cbn [prod] in Hpn. apply andb_true_iff in Hpn. destruct Hpn as [Hk Hall].
+        split; [exact Hci'|]. intros n Hpn. cbn [prodn] in Hpn. apply andb_true_iff in Hpn. destruct Hpn as [Hk Hall].
         specialize (Hn0 n Hk Hall).
         destruct (s_res st) as [|x xs] eqn:Er; inversion H2; subst; [|left; discriminate].
         destruct Hn0 as [[G|G]|G]; [congruence| |right; right; exact G].
@@ -2544,7 +2544,7 @@ Section Prod.
         { destruct err0 as [x|]; [inversion H2; subst; repeat split; [discriminate|congruence]|].
           destruct res0 as [|x xs]; [inversion H2; subst; repeat split; congruence|].
           destruct x as [| | |t i [|ch [|ch2 cs]] p r]; destruct xs; inversion H2; subst; repeat split; try congruence; discriminate. }
-        destruct E as [-> [-> [E1 E2]]]. split; [exact Hci0|]. intros n Hpn. cbn [prod] in Hpn.
+        destruct E as [-> [-> [E1 E2]]]. split; [exact Hci0|]. intros n Hpn. cbn [prodn] in Hpn.
         destruct (Hn0 n Hpn) as [G|[G|G]]; [|right; left; apply E1; exact G|right; right; exact G].
         destruct err0 as [x|]; [right; left; apply E1; discriminate|left; apply E2; [reflexivity|exact G]].
     Qed.
@@ -2553,7 +2553,7 @@ Section Prod.
       forallb ranked (q_ps q) = true -> CI c -> dbound q (S d) -> smode m lrc lrc0 pos pos0 ->
       alts_loop rs q d stk lrc pos m prefix ns st c = Ok (stop, st', c') ->
       CI c' /\ (live st -> live st') /\ (forall i, set_mem i (s_cp st) = true -> set_mem i (s_cp st') = true) /\
-      forall n, kind_ok (q_kind q) (length (q_ps q)) = true -> forallb (prod n) (q_ps q) = true ->
+      forall n, kind_ok (q_kind q) (length (q_ps q)) = true -> forallb (prodn n) (q_ps q) = true ->
                 ns <> [] \/ live st \/ blocked n (s_cp st) lrc0 pos0 -> live st' \/ blocked n (s_cp st') lrc0 pos0.
     Proof.
       induction ns as [|x ns IH]; intros st c stop st' c' Hr Hci Hd Hm H; cbn [alts_loop] in H.
@@ -2578,7 +2578,7 @@ Section Prod.
       intros q d c stk lrc pos m st stop st' c' pos0 lrc0 Hr Hci Hd Hm H.
       unfold seq_step in H. apply bind_ok in H. destruct H as [[[[res cp] err] c1] [H1 H2]].
       cbn [s_nodes s_res s_err s_cp] in H2.
-      assert (Hsub : CI c1 /\ forall n, forallb (prod n) (q_ps q) = true ->
+      assert (Hsub : CI c1 /\ forall n, forallb (prodn n) (q_ps q) = true ->
                        seq_lookup (q_kind q) (q_ps q) d <> None -> res <> [] \/ err <> None \/ blocked n cp lrc pos).
       { destruct (seq_lookup (q_kind q) (q_ps q) d) as [p|] eqn:El.
         - rewrite forallb_forall in Hr.
@@ -2661,7 +2661,7 @@ Qed.
 
 (* a productive root never comes back empty-handed from the top-level call *)
 Lemma run_productive inp rules rk n fuel r0 cp c :
-  ranked rules rk r0 = true -> forallb (ranked rules rk) rules = true -> prod rules rk n r0 = true ->
+  ranked rules rk r0 = true -> forallb (ranked rules rk) rules = true -> prodn rules rk n r0 = true ->
   run inp rules fuel r0 = Ok ([], cp, None, c) -> False.
 Proof.
   intros Hr Hrs Hp H. unfold run in H.
@@ -2672,8 +2672,8 @@ Qed.
 
 Lemma sentence_ranked rules rk root : ranked rules rk root = true -> ranked rules rk (sentence root) = true.
 Proof. intros H. unfold sentence. cbn [ranked forallb]. rewrite H. reflexivity. Qed.
-Lemma sentence_prod rules rk n root : prod rules rk n root = true -> prod rules rk n (sentence root) = true.
-Proof. intros H. unfold sentence. cbn [prod kind_ok length forallb]. rewrite H. reflexivity. Qed.
+Lemma sentence_prod rules rk n root : prodn rules rk n root = true -> prodn rules rk n (sentence root) = true.
+Proof. intros H. unfold sentence. cbn [prodn kind_ok length forallb]. rewrite H. reflexivity. Qed.
 
 (* THEOREM (C06, productive grammars lose no failed attempt). *)
 Theorem C06_no_attempt_lost_productive inp rules rk fuel root e c :
@@ -2691,7 +2691,7 @@ Qed.
 Theorem C06_guarded_productive inp rules rk n fuel root e c :
   notrim root = true -> forallb notrim rules = true ->
   guarded root = true -> forallb guarded rules = true ->
-  ranked rules rk root = true -> forallb (ranked rules rk) rules = true -> prod rules rk n root = true ->
+  ranked rules rk root = true -> forallb (ranked rules rk) rules = true -> prodn rules rk n root = true ->
   parse_top inp rules fuel (sentence root) = Ok (TopErr e c) ->
   i_offset inp <= epos e /\ epos e <= i_offset inp + i_len inp /\
   (In (epos e, ecause e) (g_fails c)
@@ -2711,7 +2711,7 @@ Qed.
    attempt exactly there and none further.  "Every Any/Choice carries a Name" is not needed. *)
 Theorem C06_furthest inp rules rk n fuel root e c :
   ok4 rules root = true -> forallb (ok4 rules) rules = true ->
-  ranked rules rk root = true -> forallb (ranked rules rk) rules = true -> prod rules rk n root = true ->
+  ranked rules rk root = true -> forallb (ranked rules rk) rules = true -> prodn rules rk n root = true ->
   guarded root = true -> forallb guarded rules = true ->
   parse_top inp rules fuel (sentence root) = Ok (TopErr e c) ->
   (exists k, In (epos e, k) (g_fails c)) /\ (forall q k, In (q, k) (g_fails c) -> q <= epos e).
@@ -2735,7 +2735,7 @@ Definition ex_rank (idx : N) : nat := if idx =? 0 then 2 else if idx =? 1 then 1
 Example C06_example_arith :
   ok4 ex_arith (PRef 0) = true /\ forallb (ok4 ex_arith) ex_arith = true /\
   ranked ex_arith ex_rank (PRef 0) = true /\ forallb (ranked ex_arith ex_rank) ex_arith = true /\
-  prod ex_arith ex_rank 3 (PRef 0) = true /\ guarded (PRef 0) = true /\ forallb guarded ex_arith = true /\
+  prodn ex_arith ex_rank 3 (PRef 0) = true /\ guarded (PRef 0) = true /\ forallb guarded ex_arith = true /\
   match parse_top (ex_inp [49; 43; 42; 49]) ex_arith 400 (sentence (PRef 0)) with
   | Ok (TopErr e c) => epos e = 3 /\ existsb (fun f => fst f =? 3) (g_fails c) = true /\
                        forallb (fun f => fst f <=? 3) (g_fails c) = true
@@ -2767,7 +2767,7 @@ Definition rank_of (big : nat) (l : list (N * nat)) (idx : N) : nat :=
 Definition rank_round (rules : list pexpr) (big : nat) (ms : list (N * pexpr)) (i : nat) (l : list (N * nat)) : list (N * nat) :=
   fold_left (fun acc m => match rank_find (fst m) l with
                           | Some _ => acc
-                          | None => if prod rules (rank_of big l) i (snd m) then (fst m, i) :: acc else acc
+                          | None => if prodn rules (rank_of big l) i (snd m) then (fst m, i) :: acc else acc
                           end) ms l.
 Fixpoint rank_rounds (rules : list pexpr) (big : nat) (ms : list (N * pexpr)) (i n : nat) (l : list (N * nat)) : list (N * nat) :=
   match n with O => l | S n' => rank_rounds rules big ms (S i) n' (rank_round rules big ms i l) end.
@@ -2777,7 +2777,7 @@ Definition compute_rank (rules : list pexpr) (root : pexpr) : N -> nat :=
   rank_of big (rank_rounds rules big ms 0 (S (length ms)) []).
 Definition productive_b (rules : list pexpr) (root : pexpr) : bool :=
   let rk := compute_rank rules root in
-  ranked rules rk root && forallb (ranked rules rk) rules && prod rules rk (S (length (flat_map memos (root :: rules)))) root.
+  ranked rules rk root && forallb (ranked rules rk) rules && prodn rules rk (S (length (flat_map memos (root :: rules)))) root.
 
 Corollary C06_furthest_decidable inp rules fuel root e c :
   ok4 rules root = true -> forallb (ok4 rules) rules = true -> productive_b rules root = true ->
